@@ -64,8 +64,8 @@ def _md():
 def _load(name):
     if name not in _G["traj"]:
         md = _md()
-        if name.endswith("@edited"):
-            t = _edited(md, ds.get(md, _G["repo"], name[:-7], _G["seed"]))
+        if "@" in name:
+            t = _edited(md, ds.get(md, _G["repo"], name.split("@")[0], _G["seed"]), rename=name.endswith("@renamed"))
         else:
             t = ds.get(md, _G["repo"], name, _G["seed"])
         _G["traj"][name] = t
@@ -75,7 +75,7 @@ def _load(name):
     return _G["traj"][name]
 
 
-def _edited(md, t):
+def _edited(md, t, rename=False):
     """The SAME Trajectory/Topology objects after a first round of descriptor calls and an in-place edit of the
     topology (elements -> masses, one residue name -> is_protein): every topology reachable by editing is a
     topology of the property, and anything remembered from the first round (masses, selections, residue classes,
@@ -99,7 +99,7 @@ def _edited(md, t):
         if a.name in swap and a.residue.index % 2 == 0:
             a.element = swap[a.name]
     prot = [r for r in t.topology.residues if r.is_protein and r.name not in ("ACE", "NME")]
-    if len(prot) >= 5:
+    if rename and len(prot) >= 5:      # separate variant: a residue name is part of Topology.__hash__, an element is not
         prot[len(prot) // 2].name = "LIG"       # a mid-chain residue becomes non-protein
     return t
 
@@ -1072,7 +1072,8 @@ def _jobs(quick):
         structs = ["pep", "pep_tri", "pep_heavy", "frag_2EQQ", "frag_1vii"]
     else:
         structs = [s for s in ds.STRUCTS if not s.startswith("wat")]
-    structs = structs + (["pep@edited"] if quick else ["pep@edited", "frag_1vii@edited", "frag_2EQQ@edited"])
+    structs = structs + (["pep@edited", "pep@renamed"] if quick else
+                         ["pep@edited", "pep@renamed", "frag_1vii@edited", "frag_1vii@renamed", "frag_2EQQ@edited"])
     cstructs = list(structs)
     if not quick:
         from vlib import grids
@@ -1081,6 +1082,9 @@ def _jobs(quick):
     simple = structs + ["wat", "watc"]
     for s in simple:
         for fam in ("centres", "rg", "shape", "thermo", "drid", "order"):
+            jobs.append((fam, s, {}))
+    for s in ("ions_tri", "ions_ortho"):      # residue origins reached through a periodic image (dipoles), whole-cell spread
+        for fam in ("thermo", "centres", "rg"):
             jobs.append((fam, s, {}))
     for s in [x for x in simple if not x.startswith("wat")]:
         jobs.append(("jcoupling", s, {}))
